@@ -195,6 +195,7 @@ func (cl *Client) WriteLoop() {
 	for {
 		select {
 		case pk := <-cl.State.outbound:
+			verifYield("writeloop.afterDequeue", cl)
 			if err := cl.WritePacket(*pk); err != nil {
 				// TODO : Figure out what to do with error
 				cl.ops.log.Debug("failed publishing packet", "error", err, "client", cl.ID, "packet", pk)
@@ -527,6 +528,7 @@ func (cl *Client) WritePacket(pk packets.Packet) error {
 	if cl.Closed() {
 		return ErrConnectionClosed
 	}
+	verifYield("write.afterClosedCheck", cl)
 
 	if cl.Net.Conn == nil {
 		return nil
